@@ -134,6 +134,10 @@ def run(shard, rec):
         if counter:
             rec.count(counter)
         md = t if maxdeg is None else maxdeg
+        if shard.get('full_degree') and counter == 'random_bit_sharings_checked' and deg < t and p > 2 ** 20:
+            # (used by C18) a random mask shared with degree below the threshold can be reconstructed by fewer than t+1 parties
+            rec.violation(f'{what}: the random value is shared with degree {deg} < t={t}: {deg + 1} parties can reconstruct it', dict(feats, mechanism='random-mask-sharing-below-threshold'), wit, case=case)
+            return None
         if deg > md:
             rec.violation(f'{what}: the {m} shares lie on a polynomial of degree {deg} > {md}', dict(feats, mechanism='degree-too-high'), wit, case=case)
             return None
@@ -198,7 +202,7 @@ def run(shard, rec):
                 return [(type(a).order, int(a.value)) for a in sh]
         if not rec.wants(case):
             continue
-        w = sim.World(m, t, no_prss, seed=sseed, policy=policy, history='auto', on_observed=calls.clear).run(program)
+        w = sim.World(m, t, no_prss, seed=sseed, policy=policy, history=tuple(shard['history']) if shard.get('history') else 'auto', on_observed=calls.clear).run(program)
         rec.count('programs_run')
         res = w.ok_results()
         what0 = f'{shard["name"]} {kind} program {pi}'
